@@ -16,12 +16,15 @@ MIXTURES = {
     'enzyme-bystander': [('water', '10 mL'), ('nacl', '5 mmol'), ('lipase', '3 U')],
     'liquid-solute': [('water', '10 mL'), ('dmso', '2 mL')],
     'solids-only': [('nacl', '5 mmol'), ('na2so4', '2 mmol')],
+    # sub-microlitre magnitudes: everything must hold relative to the data, not to the base unit
+    'tiny-binary': [('water', '123.456 nL'), ('nacl', '12.3 nmol')],
+    'tiny-dry': [('nacl', '12.3 nmol')],
 }
 DIL_UNITS = ['M', 'mM', 'm', 'mol/L', 'mmol/mL', 'g/L', 'g/mL', 'g/g', 'g/kg', 'mol/mol', 'L/L', 'mL/L', '%w/w', '%v/v', '%w/v',
              'mg/10 mL', 'umol/10 uL']
 FACTORS = [F(1, 10), F(1, 2), F(9, 10), F(1), F(11, 10), F(2)]
 CAPS = ['inf', 'ample', 'just-enough', 'just-short']
-FILL_UNITS = ['L', 'mL', 'uL', 'dL', 'g', 'mg', 'kg', 'mol', 'mmol', 'umol']
+FILL_UNITS = ['L', 'mL', 'uL', 'nL', 'dL', 'g', 'mg', 'ug', 'kg', 'mol', 'mmol', 'umol', 'nmol']
 FILL_FACTORS = [F(1, 2), F(1), F(3, 2), F(3)]
 
 
